@@ -75,6 +75,18 @@ CLAIMS = {
         text='For each of the 27 pseudo-instructions the expansion template (base mnemonic, constant registers/immediates, which pseudo operand feeds which field) is derived from the code on every path and compared with the standard table and with docs/instruction_reference.rst; '
              'li/call/tail: guard width vs. consumer, %hi/%lo of the same expression with chained registers, documented link/scratch registers, full offset in the near form. With C01 and C07 the documented effect follows for all operands and values.',
         note='Not decided: execution of the emitted code against an independent ISA semantics. Trusted: CPython ast, bbverif pathwalk, ISA pseudo table; verdicts of C01/C07 for the base instructions.'),
+    'C18': dict(
+        category='other', design='DESIGN.md §4 C18',
+        technique='typestate and ordering rules over symbolically enumerated paths of dfu.cli_main; protocol constants vs. DFU 1.1/DfuSe oracle; polynomial normal forms for addresses, slices and the padding identity',
+        text='dfu.py has no tests at all. Decided statically: request numbers, DfuSe command bytes and payload formats; the GETSTATUS helper waits bwPollTimeout and returns (status, state); on every path no download-class request is issued while the previous one has not been polled out of dfuDNBUSY; '
+             'erase loop before write loop over the same page range; addresses = 0x08000000 + page*page_size and chunk = slice at the same offset; len = q*S + r => padded length = pages*S with zeros only; size guard before the first request; GD32 variant table.',
+        note='Not decided: that the device ends up holding those bytes under all busy/error schedules (needs a device model; model-checking family). Trusted: CPython ast, bbverif pathwalk/poly, DFU/DfuSe numbers in the oracle.'),
+    'C19': dict(
+        category='other', design='DESIGN.md §4 C19',
+        technique='dominance of the normalised size guard over every request on all paths; checked-then-ignored (stated belief) rule on the status tests; def-use presence of a status test after every erase/data request',
+        text='The size guard, normalised as len(firmware) - page_size*page_count > 0 -> SystemExit, precedes every DNLOAD/CLRSTATUS request on every path; wherever the polled status is compared with STATUS_OK the bad edge must leave through a non-zero, non-empty exit and send nothing more; '
+             'every erase and data request has its polled status tested before the next request or the end.',
+        note='Not decided: device errors that surface only as USB stalls; errors during SET_ADDRESS. Trusted: CPython ast, bbverif pathwalk/poly.'),
 }
 
 NOT_YET = 'check not built yet (framework under construction)'
